@@ -165,6 +165,59 @@ func checkTraceParsing(c *core.Ctx) {
 		}
 	}
 
+	// ---------------- R20.11 address arithmetic fields are as wide as what the tracer prints ----------------
+	st11 := c.Rule("R20.11", "the tracer prints the base address, the stride and the per-lane deltas of a memory instruction as 64-bit quantities (addresses and differences of addresses); the fields of Instruction that receive them (MemAddress, MemAddressSuffix1, the elements of MemAddressSuffix2) are 64 bits wide, and the deltas are parsed with a 64-bit conversion", 3)
+	if p := c.Pkg(nvTracePkg); p != nil {
+		if obj := p.Types.Scope().Lookup("Instruction"); obj != nil {
+			if stT, ok := obj.Type().Underlying().(*types.Struct); ok {
+				for i := 0; i < stT.NumFields(); i++ {
+					f := stT.Field(i)
+					switch f.Name() {
+					case "MemAddress", "MemAddressSuffix1", "MemAddressSuffix2":
+						t := f.Type()
+						if sl, ok := t.Underlying().(*types.Slice); ok {
+							t = sl.Elem()
+						}
+						w, _, okW := typeWidth(t)
+						st11.Instances++
+						st11.Ob(okW && w == 64)
+						st11.Sample("Instruction.%s: %s", f.Name(), f.Type())
+						if !(okW && w == 64) {
+							c.Report(core.Finding{Rule: "R20.11", Pkg: nvTracePkg, Func: "Instruction", Detail: "narrow-address-field:" + f.Name(), Msg: fmt.Sprintf("Instruction.%s has type %s: strides and deltas are differences of 64-bit lane addresses, a gap of 2 GiB or more wraps (or, for the stride, is silently left 0)", f.Name(), f.Type())})
+						}
+					}
+				}
+			}
+		}
+	}
+
+	// ---------------- R20.12 every address form of the format is handled ----------------
+	st12 := c.Rule("R20.12", "the tracer writes the addresses of a memory instruction in one of three forms (address_format: 0 = list of all lane addresses, 1 = base + stride, 2 = base + deltas); the parser compares the form with each of the three constants, i.e. has an arm for each", 3)
+	if fn := c.MustFunc("R20.12", nvTracePkg, "updateInstMemoryPart"); fn != nil {
+		handled := map[int64]bool{}
+		for _, b := range fn.Blocks {
+			for _, in := range b.Instrs {
+				bo, ok := in.(*ssa.BinOp)
+				if !ok || (bo.Op != token.EQL && bo.Op != token.NEQ) {
+					continue
+				}
+				if f := core.LoadedField(bo.X); f == nil || f.Name() != "AddressCompress" {
+					continue
+				}
+				if k, isC := core.ConstInt(bo.Y); isC {
+					handled[k] = true
+				}
+			}
+		}
+		for _, form := range []int64{0, 1, 2} {
+			st12.Instances++
+			st12.Ob(handled[form])
+			if !handled[form] {
+				c.ReportAt("R20.12", fn, fn.Pos(), fmt.Sprintf("address-form-unhandled:%d", form), fmt.Sprintf("updateInstMemoryPart has no arm for address form %d: for such a line only the first address is kept and every other lane address is dropped from the parsed instruction", form))
+			}
+		}
+	}
+
 	// ---------------- R20.9 reported work counters are counted ----------------
 	st9 := c.Rule("R20.9", "every counter that a component of the NVIDIA model reports through a Get*Count method is written somewhere in its package (a counter nobody increments reports 0 whatever was executed)", 3)
 	for _, rel := range []string{"nvidia/subcore", "nvidia/sm", "nvidia/gpu", "nvidia/driver"} {
